@@ -25,6 +25,9 @@ type replyStats struct {
 	sweepErr                 *string
 	sig                      []any
 	samples                  []any
+	// later re-checks of replies that were decoded earlier in the batch (see replyOne)
+	later     []func() (clause, reason string)
+	decodedX2 int
 }
 
 // replyOne runs one MarshalReply -> (Copy) -> UnmarshalReply round trip for a result of type R.
@@ -124,6 +127,35 @@ func replyOne[R any](e *vlib.Env, res *vlib.Result, st *replyStats, result R, st
 	case handleErr != nil && reply.Error.Error() != handleErr.Error():
 		fail("reply-error", "error text came back as %s (metadata %s)", showStr(reply.Error.Error()), showMeta(msg.Metadata))
 	}
+	if res.Failed() {
+		return
+	}
+	// UnmarshalReply has no caller-supplied target: the non-fresh-target question shows here as "is the Reply handed out by one
+	// call still the marshaled one after the marshaler decoded other replies" (a decoder that keeps and reuses its target
+	// between calls would change or alias it) and "does decoding the same reply message a second time give the same Reply".
+	if r.Chance(0.5) {
+		st.decodedX2++
+		var second requestreply.Reply[R]
+		if p := guard(func() { second, err = m.UnmarshalReply(wire) }); p != "" {
+			fail("panic", "second UnmarshalReply of the same message panicked: %s", p)
+			return
+		}
+		res.Events++
+		if err != nil || !reflect.DeepEqual(second.HandlerResult, result) || (second.Error == nil) != (handleErr == nil) || (handleErr != nil && second.Error.Error() != handleErr.Error()) {
+			fail("reply-decode-twice", "decoding the same reply message a second time gave result %s, error %v, err %v", clip(fmt.Sprintf("%+v", second.HandlerResult), 600), second.Error, err)
+			return
+		}
+	}
+	st.later = append(st.later, func() (string, string) {
+		if !reflect.DeepEqual(reply.HandlerResult, result) {
+			return "reply-result-changed-later", fmt.Sprintf("result %s, handler error %s: the Reply returned by UnmarshalReply changed after later UnmarshalReply calls: %s; now %s",
+				desc, errDesc, firstDiff(reflect.ValueOf(&result), reflect.ValueOf(&reply.HandlerResult), "result"), clip(fmt.Sprintf("%+v", reply.HandlerResult), 600))
+		}
+		if handleErr != nil && (reply.Error == nil || reply.Error.Error() != handleErr.Error()) {
+			return "reply-result-changed-later", fmt.Sprintf("result %s, handler error %s: the error of the Reply returned by UnmarshalReply changed after later calls: now %v", desc, errDesc, reply.Error)
+		}
+		return "", ""
+	})
 	if len(st.samples) < 3 && handleErr != nil && !reflect.DeepEqual(result, zero) {
 		st.samples = append(st.samples, map[string]any{"result": clip(desc, 200), "handler_error": errDesc, "payload_bytes": len(msg.Payload)})
 	}
@@ -255,6 +287,17 @@ func runReply(e *vlib.Env, res *vlib.Result) {
 			replyOne(e, res, st, r.Bool())
 		}
 	}
+	if !res.Failed() {
+		for _, f := range st.later {
+			res.Events++
+			if clause, reason := f(); clause != "" {
+				res.Fail(clause, "%s", reason)
+				break
+			}
+		}
+		res.Count("replies_rechecked_after_all_unmarshals", len(st.later))
+	}
+	res.Count("replies_decoded_twice", st.decodedX2)
 	res.Count("inputs", nReplies)
 	res.Count("replies_with_error", st.withErr)
 	res.Count("replies_with_empty_error_text", st.emptyErr)
